@@ -2152,3 +2152,83 @@ func init() {
 	addDoc("C19", "R19h (= C13 R13b) cache loaders read nothing but their key.")
 	addDoc("C20", "R20b ext. the _node text is the idr converter's result handed on unmodified. R20g the runtime a program runs on is goja.New() or sync.Pool.Get on every path. R20h pooled maps/slices are empty on every path to Put.")
 }
+
+// ---------------------------------------------------------------- records are dropped by the filter only (old csv)
+
+// skipOnlyByFilter: in a Read method that fetches records from an encoding/csv based source and can fetch again before
+// returning, a fetched record may be discarded — i.e. control may get back to the fetch without a return — only on the
+// verdict of an xpath query (the FINAL_OUTPUT filter). Any other condition that depends on the fetched record and has an
+// edge leading back to the fetch drops rows of the input by their content (seed C06-11: the one-field row `""` skipped
+// as a "blank line").
+func skipOnlyByFilter(c *core.Ctx, rule string, pkgs []string) {
+	c.SSA()
+	n := 0
+	for _, f := range c.RepoFunctions() {
+		if core.IsCLIOrSample(core.FuncPkg(f)) || !inPkgs(core.FuncPkg(f), pkgs) || f.Name() != "Read" || f.Signature.Recv() == nil {
+			continue
+		}
+		var fetch []*ssa.Call
+		for _, ci := range core.Calls(f) {
+			call, ok := ci.(*ssa.Call)
+			if !ok {
+				continue
+			}
+			o := core.CalleeObj(call)
+			if o == nil || o.Pkg() == nil || o.Name() != "Read" {
+				continue
+			}
+			full := o.Pkg().Path() + "." + core.FuncName(o)
+			if full == "encoding/csv.Reader.Read" || full == "github.com/jf-tech/go-corelib/ios.LineNumReportingCsvReader.Read" {
+				fetch = append(fetch, call)
+			}
+		}
+		for _, s := range fetch {
+			isRecord := func(v ssa.Value) bool {
+				ex, ok := v.(*ssa.Extract)
+				return ok && ex.Tuple == ssa.Value(s) && ex.Index == 0
+			}
+			for _, b := range f.Blocks {
+				if len(b.Instrs) == 0 {
+					continue
+				}
+				ifi, ok := b.Instrs[len(b.Instrs)-1].(*ssa.If)
+				if !ok || !c04DependsOn(ifi.Cond, isRecord) {
+					continue
+				}
+				// does an edge of this test lead back to the fetch?
+				back := false
+				for _, succ := range b.Succs {
+					if core.ReachableBlocks(succ, nil)[s.Block()] {
+						back = true
+					}
+				}
+				if !back {
+					continue
+				}
+				n++
+				key := core.FuncKey(f) + " discards a fetched record"
+				isQuery := c04DependsOn(ifi.Cond, func(v ssa.Value) bool {
+					call, ok := v.(*ssa.Call)
+					if !ok {
+						return false
+					}
+					o := core.CalleeObj(call)
+					return o != nil && o.Pkg() != nil && core.Rel(o.Pkg().Path()) == "idr" && strings.HasPrefix(o.Name(), "Match")
+				})
+				c.Check(isQuery, rule, key, core.InstrPos(ifi), "the only record-dependent test with an edge back to the fetch is the xpath filter's verdict",
+					"a condition over the fetched record, other than the verdict of the xpath filter, can send control back to the fetch without returning the record: rows are dropped by their content")
+			}
+		}
+	}
+	c.OK(rule, "record-dependent re-fetch tests", 0, fmt.Sprintf("%d record-dependent test(s) with an edge back to the fetch in %v", n, pkgs))
+}
+
+func init() {
+	wrapRun("C06", func(c *core.Ctx) {
+		if c.CountRule("R06n") == 0 {
+			skipOnlyByFilter(c, "R06n", []string{"extensions/omniv21/fileformat/csv"})
+			c.Floor("R06n", 2, "the filter test of the old csv reader")
+		}
+	})
+	addDoc("C06", "R06n in the old csv reader's Read the only record-dependent test with an edge back to the record fetch is the xpath filter's verdict.")
+}
